@@ -28,7 +28,9 @@ RULE = ("a case = a disparity map (1..7 x 1..9, values k/4, invalid_disparity -9
         "offset 0/1.  Layout classes: none_valid, one_valid, one_path, borders, mixed, sparse, tall, wide, "
         "refill (flagged pixels already carrying bit 4/5), exhaustive 2x3 and 1x5 over the four states.  A case is "
         "non-trivial when at least one flagged pixel is filled and at least one pixel stays unchanged; distinct by "
-        "content digest")
+        "content digest.  Second stream: PandoraMachine.validation_run (cross_checking_accurate + interpolated_disparity) "
+        "on left/right disparity datasets generated as for C07 (1..6 x 1..14, thresholds 0..2, offsets 0..3), "
+        "non-trivial when some mask changes between cross-check and final")
 ASSUMES = [
     "numba/numpy primitives used by the kernels (np.argmax of booleans, np.nanmedian, np.argsort with NaN last and "
     "insertion sort below 15 elements, int() truncation, uint16 += / -=) are hand-modelled and validated by this "
@@ -421,6 +423,92 @@ def check_property(ctx, cs, method, d1, m1):
     return n_filled, n_kept
 
 
+# ---------------------------------------------------------------- validation_run of the state machine
+
+def run_validation_stream(ctx, model, n_cases):
+    """PandoraMachine.validation_run (state_machine.py:462-481) with interpolated_disparity, on left/right
+    disparity datasets generated as in C07: (a) exact comparison with the extracted validation_interp_run;
+    (b) the property on the real outputs: each final dataset must be what Spec/Interp.v allows from the dataset
+    as the real cross-check leaves it (so: both datasets interpolated, after both cross-checks)."""
+    from pandora import validation
+    from pandora.state_machine import PandoraMachine
+    from harness.props import c07
+
+    rng = ctx.rng
+    cases = []
+    if getattr(ctx, "replay_case", None) is not None:
+        cases = [(c07.case_from_json(ctx.replay_case["case"]), ctx.replay_case["method"])]
+    else:
+        for i in range(n_cases):
+            cs = c07.gen_case(rng, rng.choice(["structured", "structured", "half", "tiny", "edge"]))
+            cs["thr_is_int"] = False
+            cases.append((cs, METHODS[i % 2]))
+    margs = []
+    for cs, method in cases:
+        dmin, dmax = cs["interval"]
+        margs.append((5, [c07.enc_ds(cs["L"], cs["maskL"], (dmin, dmax), cs["offset"]),
+                          c07.enc_ds(cs["R"], cs["maskR"], (-dmax, -dmin), cs["offset"]), cs["thr"],
+                          METHODS.index(method)]))
+    mres = model.batch(margs)
+
+    def snap(ds):
+        d = [[core.to_q(v) if np.isfinite(v) else (None if np.isnan(v) else "inf") for v in row]
+             for row in ds["disparity_map"].data]
+        return d, ds["validity_mask"].data.astype(int).tolist()
+
+    for (cs, method), mr in zip(cases, mres):
+        dmin, dmax = cs["interval"]
+        replay = {"stream": "validation_run", "case": c07.case_to_json(cs), "method": method}
+        vcfg = {"validation_method": "cross_checking_accurate", "cross_checking_threshold": float(cs["thr"]),
+                "interpolated_disparity": method}
+        # the real callback
+        mach = PandoraMachine()
+        mach.left_disparity = c07.make_ds(cs["L"], cs["maskL"], (dmin, dmax), cs["offset"], cs["nbL"])
+        mach.right_disparity = c07.make_ds(cs["R"], cs["maskR"], (-dmax, -dmin), cs["offset"], cs["nbR"])
+        mach.right_disp_map = "cross_checking_accurate"
+        mach.validation_run({"pipeline": {"validation": dict(vcfg)}}, "validation")
+        fl, fr = snap(mach.left_disparity), snap(mach.right_disparity)
+        ctx.traces += 1
+        ctx.count("validation_run_cases")
+        model_out = ([[core.q_of(v) for v in row] for row in mr[0]], mr[1],
+                     [[core.q_of(v) for v in row] for row in mr[2]], mr[3])
+        if (fl[0], fl[1], fr[0], fr[1]) != model_out:
+            ctx.mismatch("validation_run-" + method, replay,
+                         {"left": [str(fl[0]), fl[1]], "right": [str(fr[0]), fr[1]]},
+                         {"left": [str(model_out[0]), model_out[1]], "right": [str(model_out[2]), model_out[3]]})
+        # the property: the real cross-checks alone, then what the Spec allows from there
+        val = validation.AbstractValidation(validation_method="cross_checking_accurate",
+                                            cross_checking_threshold=float(cs["thr"]))
+        left = c07.make_ds(cs["L"], cs["maskL"], (dmin, dmax), cs["offset"], cs["nbL"])
+        right = c07.make_ds(cs["R"], cs["maskR"], (-dmax, -dmin), cs["offset"], cs["nbR"])
+        left = val.disparity_checking(left, right)
+        right = val.disparity_checking(right, left)
+        nontrivial = False
+        for side, mid_ds, fin in (("left", left, fl), ("right", right, fr)):
+            md, mm = snap(mid_ds)
+            mid = {"kind": "validation_run", "n0": len(md), "n1": len(md[0]), "offset": cs["offset"], "disp": md,
+                   "mask": mm}
+            spec = spec_outputs(mid, method)
+            if spec is None:
+                continue
+            sd, sm = spec
+            bad = [(r, c) for r in range(mid["n0"]) for c in range(mid["n1"])
+                   if fin[1][r][c] != sm[r][c] or fin[0][r][c] not in sd[r][c]]
+            if bad:
+                r, c = bad[0]
+                ctx.violation("validation_run_" + side + "_not_interpolated_as_spec",
+                              f"validation_run with interpolated_disparity={method}: {side} dataset, pixel ({r},{c}) "
+                              f"holds mask {mm[r][c]} disparity {md[r][c]} after the cross-checks and ends with mask "
+                              f"{fin[1][r][c]} disparity {fin[0][r][c]}; Spec/Interp.v allows mask {sm[r][c]} disparity "
+                              f"in {sorted(map(str, sd[r][c]))}", replay)
+            if any(mm[r][c] != fin[1][r][c] for r in range(mid["n0"]) for c in range(mid["n1"])):
+                nontrivial = True
+        digest = None
+        if nontrivial:
+            digest = hashlib.sha1(json.dumps(replay, sort_keys=True).encode()).hexdigest()[:16]
+        ctx.case(digest)
+
+
 # ---------------------------------------------------------------- run
 
 def run(ctx):
@@ -442,8 +530,17 @@ def run(ctx):
         ex = ex[::6]
     cases += ex
     ctx.stats["exhaustive_cases"] = len(ex)
+    ctx.gen_obligations = ["Gen.ValConst constants = Model constants (C14_constants_match, reflexivity on the "
+                           "regenerated file)",
+                           "Gen.Callbacks validation_run call structure = the one validation_interp_run models "
+                           "(C14_validation_run_calls, reflexivity on the regenerated file)"]
     if getattr(ctx, "replay_case", None) is not None:
+        if ctx.replay_case.get("stream") == "validation_run":
+            run_validation_stream(ctx, model, 1)
+            return
         cases = [case_from_json(ctx.replay_case["case"])]
+    else:
+        run_validation_stream(ctx, model, 160 if quick else 4000)
 
     margs = []
     for cs in cases:
@@ -476,14 +573,12 @@ def run(ctx):
                             "disp_after": [[None if v is None else float(v) for v in row] for row in d1],
                             "mask_after": m1}, limit=6)
         ctx.case(digest)
-    ctx.gen_obligations = ["Gen.ValConst constants = Model constants (C14_constants_match, reflexivity on the "
-                           "regenerated file)",
-                           "Gen.Callbacks validation_run call structure = the one validation_interp_run models "
-                           "(C14_validation_run_calls, reflexivity on the regenerated file)"]
     ctx.stats["spec_clauses_checked_on_impl"] = [
         "outputs of the real code are among those Spec/Interp.v allows (independent transcription of the Spec: first "
         "valid pixel along each path, median, second lowest |d|, bit swaps, border)",
         "pixels without bit 8/9 keep disparity and mask", "flag swap 8->4 / 9->5 / sgm 9->8->4, or pixel untouched",
         "filled value finite and within [min,max] of the valid disparities", "filled => a valid pixel in sight along "
         "the kernel's directions (two for sgm occlusion)", "mc-cnn occlusion source = first valid left else right",
-        "border pixels end with mask 1"]
+        "border pixels end with mask 1",
+        "PandoraMachine.validation_run: left and right final datasets = what the Spec allows from the datasets as "
+        "the real cross-checks leave them"]
